@@ -3,6 +3,21 @@
 import json, os, glob
 ROOT = os.path.dirname(os.path.dirname(os.path.abspath(__file__)))
 NOTES = {
+ "C01-g": "missed at first: C01 ran in the std configuration only and the defect sits in the no-alloc variant of `skip` (reached by `Decode for Bound` on `Unbounded` = `[2, []]`); new part C01N (g_cfg): value-driven round trips of all types that exist without alloc in each of the six configurations",
+ "C02-g": "missed at first: the new branch is reached by `tag 1 + float >= 2^64` only, which neither mutation of valid `[secs, nanos]` encodings nor the generic item generator produced often enough; new `tagged-numbers` sub-check (registered tags x boundary numbers of every width through every entry point)",
+ "C04-g": "missed at first: release-only (the consuming read sits inside a debug_assert!); the harness profile has debug assertions on. Every check now has a *release leg*: the quick-tier amounts once more against harness and library built without debug assertions and with wrapping arithmetic",
+ "C05-g": "missed at first: the serde part drove the typed targets only; it now also drives a deserialize_any visitor and an untagged integer enum",
+ "C06-g": "missed at first: release-only (the pop sits inside a debug_assert!) - see C04-g: release leg",
+ "C07-g": "missed at first: no element type made the user context observable, so the order in which len_with visits keys and values could not matter; new `context-threading` sub-check (C01, C07)",
+ "C08-g": "missed at first: no array-encoded definition had a field index near u32::MAX (its encoding would be 4 GiB); new `extreme-indices` sub-check observes header and first bytes through a 48-byte sink - and found the genuine defect D10 on the way",
+ "C09-g": "missed at first: field types were always bare paths; the population now has a parenthesised `(Option<Vec<u8>>)` under `minicbor::bytes` (mandatory by spelling, its None an explicit null)",
+ "C10-g": "missed at first: optional enum fields always spelled `Option<..>`; every third one now hides the Option behind a type alias (optional only through Decode::nil)",
+ "C11-g": "missed at first by C11 (C02 reported the panic): tokenizers were built from decoders at positions inside the input only; now also at and behind the end",
+ "C15-g": "missed at first: the scripted source had std's default poll_read_vectored; every second DFS stream and half of the walks now use a native scatter read whose deliveries end anywhere",
+ "C17-g": "missed at first: no family type went through `Serializer::collect_str`; added one-piece and multi-piece Display types of 0-1000 bytes read back as String",
+ "C18-g": "missed at first: release-only (the break is consumed inside a debug_assert_eq!) - see C04-g: release leg",
+ "C19-g": "missed at first: display was only ever formatted with `{}`; the rendering must not depend on width, fill, alignment, sign, precision or the alternate flag",
+ "C20-g": "missed at first: every visitor in the probe accepted every item kind, so serde's provided error constructors were never reached; added visitors that accept two kinds only, deny_unknown_fields, NonZero and a 3-tuple",
  "C01-f": "missed at first: every impl was covered, but the container impls look at the next byte before handing over to the element's impl and no container had an element type whose encoding can start with that byte (`Token::Break` = 0xff inside a `Vec`); the registry now has a container x element matrix of 157 composite types (Vec, VecDeque, LinkedList, [T;2], Box, (T,u8,T), BTreeMap<u16,T>, Result, Bound, Option over 16 element types with distinctive first bytes)",
  "C03-f": "missed at first by C03 (C13 reported it): C03 only observed bytes collected by a Vec; every registry value is now also encoded through the std::io adapter into a sink that takes the bytes in scripted short writes, with Interrupted calls and a native write_vectored",
  "C04-f": "missed at first by C04 (C14's frame-extent reported it): typed decoding was only driven on plain buffers; new part C04F in g_io offers frames holding a strict prefix of an encoding to Reader / AsyncReader (new / with_buffer) after longer frames and demands an end-of-input decode error",
